@@ -456,10 +456,11 @@ class ConcreteCtx:
 
 # --------------------------------------------------------------------------- SymBool
 class SymBool:
-    __slots__ = ("e",)
+    __slots__ = ("e", "src")
 
-    def __init__(self, e):
+    def __init__(self, e, src=None):
         self.e = e
+        self.src = src      # optional 0/1 SymInt (with affine form) whose truth this is: keeps bit identity through bool()
 
     def __bool__(self):
         return Ctx.cur.branch(self.e)
@@ -495,9 +496,11 @@ class SymBool:
 
     def __invert__(self):
         # NOTE: for harness use only (logical not). The library never applies ~ to a bool.
-        return _mkbool(z3.Not(self.e))
+        return sym_not(self)
 
     def as_int(self):
+        if self.src is not None:
+            return self.src
         s = SymInt(z3.If(self.e, z3.BitVecVal(1, 2), z3.BitVecVal(0, 2)), 0, 1)
         return s
 
@@ -551,7 +554,10 @@ def _mkbool(e):
 def sym_not(x):
     """logical negation usable on bool and SymBool (harness helper)"""
     if _real_isinstance(x, SymBool):
-        return _mkbool(z3.Not(x.e))
+        r = _mkbool(z3.Not(x.e))
+        if _real_isinstance(r, SymBool) and x.src is not None:
+            r.src = x.src ^ 1
+        return r
     if _real_isinstance(x, SymInt):
         return x == 0
     return not x
@@ -962,6 +968,22 @@ class SymInt:
         elif op in ("eq", "ne"):
             if self.hi < olo or self.lo > ohi:
                 return op == "ne"
+            if oe is None and self.lo >= 0 and olo >= 0 and (self.aff is not None or self.hi <= 1):
+                # single-bit value (x in {0, 2^k}): the comparison is that bit, kept as an affine 0/1 integer
+                fa = _aff_of(self, self.hi.bit_length())
+                nz = [i for i, f in enumerate(fa) if f]
+                if _real_len(nz) == 1 and fa[nz[0]] != _ONE:
+                    k = nz[0]
+                    if olo not in (0, 1 << k):
+                        return op == "ne"
+                    bit = _from_aff((fa[k],))
+                    truth_is_bit = (olo != 0) == (op == "eq")
+                    src = bit if truth_is_bit else (bit ^ 1)
+                    w1 = _width(0, 1)
+                    r = _mkbool(_fit(src.e, w1) == z3.BitVecVal(1, w1))
+                    if _real_isinstance(r, SymBool):
+                        r.src = src
+                    return r
             if self.lo >= 0 and olo >= 0 and (self.aff is not None) and (oe is None or o.aff is not None):
                 nb = max(self.hi.bit_length(), ohi.bit_length())
                 fa, fb = _aff_of(self, nb), _aff_of(o, nb)
